@@ -453,13 +453,16 @@ def job_two_builds(jc):
 
 def jobs(tier):
     js = [Job("png_read_from[histories]", job_read_from), Job("two builds[upem=1024,F=1200,h=128]", job_two_builds, upem=1024, F=1200, h=128),
-          Job("two builds[upem=1000,F=1000,h=64]", job_two_builds, upem=1000, F=1000, h=64)]
+          Job("two builds[upem=1000,F=1000,h=64]", job_two_builds, upem=1000, F=1000, h=64),
+          Job("two builds[upem=1000,F=1045,h=128]", job_two_builds, upem=1000, F=1045, h=128)]  # line height 127 vs 128 px: half-pixel term in the bearing
     from harness import C17
 
     for fmt in ("cbdt", "sbix"):
         for n in (2, 3):
             js.append(Job(f"inputs[{fmt},n={n}]", C17.job_inputs, fmt=fmt, n=n))  # every glyph gets the PNG of its own row
-    metric_sets = [(1024, 1200), (1000, 1000), (2048, 2400), (1024, 1024)]
+    # (1000, 1045) and (1000, 900): em heights just above / below upem, where the scaled line height is the bitmap height ± 1
+    # and every rounding in the bearing formula counts (round 5)
+    metric_sets = [(1024, 1200), (1000, 1000), (2048, 2400), (1024, 1024), (1000, 1045), (1000, 900)]
     hs = [16, 64, 106, 127, 128, 136, 255] if tier == "quick" else list(range(8, 256, 1))
     for upem, F in metric_sets:
         for h in hs:
